@@ -20,7 +20,7 @@ Next == Len(toks) < MaxLen /\ \E t \in Alphabet : toks' = Append(toks, t)
 
 TextConforms == TextConformsAt(toks)
 
-\* non-vacuity: all four verdict classes, and accepting as well as rejecting outcomes, occur in the explored space
-\* (checked as "violated" properties by hand during development; here as reachability witnesses counted by the driver)
+\* non-vacuity (checked by hand by asserting the negation as an invariant; TLC then shows a witness):
+\* obj/accept "node/0:-", feat/accept "node/0", elem/ifok accepted "node/0", obj/silent accepted "node/-7"
 Witness(P, d) == Verdict(P, toks).d = d
 =============================================================================
